@@ -45,7 +45,15 @@ extern vs_race_t vs_races[VS_MAXRACES];
 extern int vs_nraces;
 extern uint64_t vs_hashes[VS_MAXPTS]; /* state hash at each recorded choice point */
 extern uint64_t (*vs_obs_hash)(void); /* harness-supplied observable-state hash (may be NULL) */
-extern long (*vs_group_of)(int op, void *obj); /* sleep sets: conflict group of a pending op; -1 = conflicts with everything */
+extern long (*vs_group_of)(int op, void *obj); /* canonical id of the object a pending pthread op names (state hash); -1 = unknown */
+/* footprints (sleep-set mode): which shared objects the transition that starts at a scheduling point touches.
+   Two transitions of different threads are independent iff no object is shared with at least one write.
+   obj < 0 = "everything" (dependent with every other transition). */
+typedef struct { long obj; int write; } vs_fp_t;
+#define VS_MAXFP 4
+/* footprint of a pending pthread operation (lock/broadcast/signal/pre-wait on the object `obj`); returns the count */
+extern int (*vs_fp_of)(int op, void *obj, vs_fp_t out[VS_MAXFP]);
+void vs_point_fp(int kind, long group, const vs_fp_t *fp, int nfp); /* scheduling point with an explicit footprint */
 /* called (in the dying child) before _exit on deadlock/horizon/divergence; arg = VS_* code */
 extern void (*vs_on_fatal)(int code);
 
